@@ -14,7 +14,7 @@ PROP = "C01"
 
 
 def _site(beh, mm):
-    return "%s|%s|%s" % (PROP, mm["act"], beh["desc"]["cls"])
+    return "%s|%s|%s|%s" % (PROP, mm["act"], beh["desc"]["cls"], core.failure_kind(mm))
 
 
 def _replay(beh):
